@@ -17,10 +17,24 @@ def _tokens(ns):
     """`prefix=uri` declarations of a namespaces setting: whitespace separated, exactly one '=', non-empty prefix."""
     out = []
     for tok in (ns or "").split():
-        parts = tok.split("=")
+        parts = tok.split("=", 1)   # the URI may itself contain '=' (query string)
         if len(parts) == 2 and parts[0] != "":
             out.append((parts[0], parts[1].replace('"', "").replace("'", "")))
     return out
+
+
+def InvalidNsToken(ns):
+    """Some declaration cannot be written as xmlns:prefix="uri": prefix not an NCName, reserved, or empty URI."""
+    import re
+
+    nc = re.compile("[A-Z_a-z\u00C0-\u00D6\u00D8-\u00F6\u00F8-\u02FF\u0370-\u037D\u037F-\u1FFF\u200C-\u200D\u2070-\u218F"
+                    "\u2C00-\u2FEF\u3001-\uD7FF\uF900-\uFDCF\uFDF0-\uFFFD\U00010000-\U000EFFFF]"
+                    "[-.0-9A-Z_a-z\u00B7\u00C0-\u00D6\u00D8-\u00F6\u00F8-\u037D\u037F-\u1FFF\u200C-\u200D\u203F-\u2040"
+                    "\u2070-\u218F\u2C00-\u2FEF\u3001-\uD7FF\uF900-\uFDCF\uFDF0-\uFFFD\U00010000-\U000EFFFF]*")
+    for p, u in _tokens(ns):
+        if not nc.fullmatch(p) or p == "xmlns" or (p == "xml") != (u == "http://www.w3.org/XML/1998/namespace") or not u:
+            return True
+    return False
 
 
 def DeclaresPrefix(ns, prefix):
@@ -41,9 +55,10 @@ def FirstDeclarations(ns):
 
 
 def _nsmap_cases():
-    toks = ["entities", "=", " ", "x", "http://e/entities", '"', "orx=http://mine", "a=b", "entities=http://other", "=u"]
+    toks = ["entities", "=", " ", "x", "http://e/entities", '"', "orx=http://mine", "a=b", "entities=http://other", "=u",
+            "1a", "xml", "xmlns", "p:q", "u?a=b"]
     strings = {None, ""}
-    for n in range(1, 5):
+    for n in range(1, 4):
         for combo in itertools.product(toks, repeat=n):
             strings.add("".join(combo))
     for ns in sorted(strings, key=lambda s: (s is not None, s or "")):
